@@ -12,6 +12,11 @@ MOD = "c19"
 SPEC = "Merge"
 
 QUIRK_WHAT = {
+    "VecKeyRewriteOrder": "re-writing a vector-valued pointer key keeps its old position in the map's item list while its "
+                          "bytes are written last in memory: every copy of the map (use/eval, hence the assume() copies "
+                          "merge() works on) replays the items in list order and no longer holds what the map held, so the "
+                          "merge covers the copy, not the map (m[v]=vec([p+2,p+3]); m[mem(v,32)]=a; m[mem(p+5,8)]=b; "
+                          "m[mem(v,8)]=c: byte p+5 is a[16:24] in m and b in m.assume([]))",
     "SkipWiderSecondVec": "merge(m1, m2) loses the upper bytes m2 wrote through a VECTOR-VALUED pointer key when both maps have "
                           "an item for that key and m1's is narrower (the vector branch of merge() still joins at m1's size "
                           "and the second loop skips the key; the plain-pointer case was repaired in 03f2317)",
